@@ -667,6 +667,15 @@ def rule_char_width_coherent(ctx, crate, rule="R-CHAR-WIDTH-COHERENT"):
                 wsl = b.slice(f["char_width"], at=i)
                 psl = b.slice(f["progress_chars"], at=i)
                 ok = wsl.has_call(r"style::width") and bool({c.bb for c in psl.calls} & {c.bb for c in wsl.calls})
+                if not ok:
+                    # struct-update syntax (`Self { template, ..self }`): both fields are moved out of one existing style, which is coherent
+                    def src_style(op_):
+                        pl_ = op_.get("place") if isinstance(op_, dict) else None
+                        fs_ = place_fields(pl_) if pl_ else []
+                        return (pl_["l"], tuple(json.dumps(e_, sort_keys=True) for e_ in pl_["p"][:-1])) if fs_ and fs_[-1][0] == PSTY else None
+                    a_, b_ = src_style(f["char_width"]), src_style(f["progress_chars"])
+                    ok = a_ is not None and a_ == b_ and place_fields(f["char_width"]["place"])[-1][2] == "char_width" and \
+                        place_fields(f["progress_chars"]["place"])[-1][2] == "progress_chars"
                 ctx.check(ok, rule, "constructor-coherent", b.name, "%s:%d" % (b.file, s.get("line", 0)),
                           "a new style's char_width is width() of its own progress_chars", "a new style's char_width is not computed from its progress_chars", cfg)
     ctx.floor(rule, n, 2, cfg, "functions installing a progress_chars table")
